@@ -15,6 +15,45 @@ theorem mul_add_add_lt_sq' {B a b c d : Nat} (ha : a < B) (hb : b < B) (hc : c <
   have e : (B' + 1) * (B' + 1) = B' * B' + 2 * B' + 1 := by ring
   omega
 
+-- ------------------------------------------------------------------ mul_word_in_place_with_carry
+
+theorem mul_add_add_lt_sq {B a b c d : Nat} (ha : a < B) (hb : b < B) (hc : c < B) (hd : d < B) :
+    a * b + c + d < B * B := by
+  obtain ⟨B', rfl⟩ : ∃ B', B = B' + 1 := ⟨B - 1, by omega⟩
+  have h := Nat.mul_le_mul (show a ≤ B' by omega) (show b ≤ B' by omega)
+  have e : (B' + 1) * (B' + 1) = B' * B' + 2 * B' + 1 := by ring
+  omega
+
+theorem mul_add_lt_sq {B a b c : Nat} (ha : a < B) (hb : b < B) (hc : c < B) :
+    a * b + c < B * B := by
+  have := mul_add_add_lt_sq ha hb hc (show 0 < B by omega)
+  omega
+
+theorem mulWordInPlace_spec (W : Nat) (ws : List Nat) (rhs c : Nat) (hw : IsWords W ws)
+    (hr : rhs < 2 ^ W) (hc : c < 2 ^ W) :
+    val W (mulWordInPlace W ws rhs c).1 + 2 ^ (W * ws.length) * (mulWordInPlace W ws rhs c).2
+      = val W ws * rhs + c ∧
+    (mulWordInPlace W ws rhs c).1.length = ws.length ∧ IsWords W (mulWordInPlace W ws rhs c).1 ∧
+    (mulWordInPlace W ws rhs c).2 < 2 ^ W := by
+  induction ws generalizing c with
+  | nil => simp [mulWordInPlace, IsWords.nil, hc]
+  | cons a as ih =>
+    have hp : 0 < 2 ^ W := Nat.two_pow_pos W
+    have ha := hw.head
+    have hv : a * rhs + c < 2 ^ W * 2 ^ W := mul_add_lt_sq ha hr hc
+    have hq : (a * rhs + c) / 2 ^ W < 2 ^ W := (Nat.div_lt_iff_lt_mul hp).mpr hv
+    have hdm := Nat.div_add_mod (a * rhs + c) (2 ^ W)
+    obtain ⟨i1, i2, i3, i4⟩ := ih ((a * rhs + c) / 2 ^ W) hw.tail hq
+    simp only [mulWordInPlace, val_cons, List.length_cons]
+    refine ⟨?_, by simp [i2], IsWords.cons (Nat.mod_lt _ hp) i3, i4⟩
+    rw [pow_mul_succ]
+    generalize mulWordInPlace W as rhs ((a * rhs + c) / 2 ^ W) = res at i1
+    obtain ⟨r, c'⟩ := res
+    simp only at i1 ⊢
+    have e : 2 ^ W * (val W r + 2 ^ (W * as.length) * c')
+        = 2 ^ W * (val W as * rhs + (a * rhs + c) / 2 ^ W) := by rw [i1]
+    linarith
+
 -- ------------------------------------------------------------------ add_mul_word_same_len_in_place
 
 theorem addMulWordLoop_spec (W mult : Nat) (hm : mult < 2 ^ W) :
@@ -1044,13 +1083,891 @@ theorem karatsubaSameLen_contract (W : Nat) (hW : 3 ≤ W) (rec : MulKernel)
   linear_combination (-(s * Bm)) * e
 
 
+-- ====================================================================== Toom-3: scratch values
+
+/-- an update whose exact result fits the window has carry zero -/
+theorem upd_exact (W : Nat) (c r : List Nat) (k δ : Int) (h : Upd W c r k δ)
+    (h0 : 0 ≤ (val W c : Int) + δ) (h1 : (val W c : Int) + δ < (2 : Int) ^ (W * c.length)) :
+    k = 0 ∧ (val W r : Int) = val W c + δ ∧ r.length = c.length ∧ IsWords W r := by
+  obtain ⟨l1, l2, l3⟩ := h
+  have b2 := val_lt_int W r l2
+  rw [l1] at b2
+  have n2 : (0 : Int) ≤ val W r := Int.natCast_nonneg _
+  have hk : k = 0 := by
+    by_contra hne
+    rcases lt_or_gt_of_ne hne with hlt | hgt
+    · have : k ≤ -1 := by omega
+      nlinarith
+    · have : 1 ≤ k := by omega
+      nlinarith
+  subst hk
+  exact ⟨rfl, by linarith, l1, l2⟩
+
+/-- `t = v·m` extended by the carry word and `extra` zero words (`t1[2n3] = mul_word_in_place(t1_short, 3);
+    t1[2n3+1] = 0`, `c_eval[2·n3_short] = mul_word_in_place(c_short, 12)`) -/
+theorem mulWord_extend (W : Nat) (v : List Nat) (m : Nat) (hv : IsWords W v) (hm : m < 2 ^ W) :
+    val W ((mulWordInPlace W v m 0).1 ++ [(mulWordInPlace W v m 0).2]) = val W v * m ∧
+    ((mulWordInPlace W v m 0).1 ++ [(mulWordInPlace W v m 0).2]).length = v.length + 1 ∧
+    IsWords W ((mulWordInPlace W v m 0).1 ++ [(mulWordInPlace W v m 0).2]) ∧
+    val W ((mulWordInPlace W v m 0).1 ++ [(mulWordInPlace W v m 0).2, 0]) = val W v * m ∧
+    ((mulWordInPlace W v m 0).1 ++ [(mulWordInPlace W v m 0).2, 0]).length = v.length + 2 ∧
+    IsWords W ((mulWordInPlace W v m 0).1 ++ [(mulWordInPlace W v m 0).2, 0]) := by
+  obtain ⟨s1, s2, s3, s4⟩ := mulWordInPlace_spec W v m 0 hv hm (Nat.two_pow_pos W)
+  generalize mulWordInPlace W v m 0 = res at s1 s2 s3 s4
+  obtain ⟨r, c⟩ := res
+  simp only at s1 s2 s3 s4 ⊢
+  have hz : (0 : Nat) < 2 ^ W := Nat.two_pow_pos W
+  refine ⟨?_, by simp [s2], s3.append (IsWords.cons s4 (IsWords.nil W)), ?_, by simp [s2],
+    s3.append (IsWords.cons s4 (IsWords.cons hz (IsWords.nil W)))⟩
+  · rw [val_append, s2]; simp only [val_cons, val_nil, Nat.mul_zero, Nat.add_zero]; omega
+  · rw [val_append, s2]; simp only [val_cons, val_nil, Nat.mul_zero, Nat.add_zero]; omega
+
+theorem toomEval2_spec (W : Nat) (hW : 3 ≤ W) (a0 a1 a2 : List Nat) (h0 : IsWords W a0)
+    (h1 : IsWords W a1) (h2 : IsWords W a2) (hl1 : a0.length = a1.length)
+    (hl2 : a2.length ≤ a0.length) :
+    val W (toomEval2 W a0 a1 a2) = val W a0 + 2 * val W a1 + 4 * val W a2 ∧
+    (toomEval2 W a0 a1 a2).length = a0.length + 1 ∧ IsWords W (toomEval2 W a0 a1 a2) := by
+  have h8 : 2 ^ 3 ≤ 2 ^ W := Nat.pow_le_pow_right (by omega) hW
+  obtain ⟨s1, s2, s3, s4⟩ := addMulWordSameLen_spec W a0 2 a1 h0 h1 hl1 (by omega)
+  simp only [toomEval2]
+  generalize addMulWordSameLen W a0 2 a1 = res at s1 s2 s3 s4
+  obtain ⟨e1, k1⟩ := res
+  simp only at s1 s2 s3 s4 ⊢
+  obtain ⟨t1, t2, t3, t4⟩ := addMulWordInPlace_spec W e1 4 a2 s3 h2 (by omega) (by omega)
+  generalize addMulWordInPlace W e1 4 a2 = res2 at t1 t2 t3 t4
+  obtain ⟨e2, k2⟩ := res2
+  simp only at t1 t2 t3 t4 ⊢
+  have b0 := val_lt W a0 h0
+  have b1 := val_lt W a1 h1
+  have b2 := val_lt W a2 h2
+  have be1 := val_lt W e1 s3
+  have hx : 2 ^ (W * a2.length) ≤ 2 ^ (W * a0.length) :=
+    Nat.pow_le_pow_right (by omega) (Nat.mul_le_mul_left _ hl2)
+  rw [s2] at t1 be1
+  rw [← hl1] at b1
+  have hk1 : k1 ≤ 2 := by
+    by_contra hc
+    have : 2 ^ (W * a0.length) * 3 ≤ 2 ^ (W * a0.length) * k1 := Nat.mul_le_mul_left _ (by omega)
+    omega
+  have hk2 : k2 ≤ 4 := by
+    by_contra hc
+    have : 2 ^ (W * a0.length) * 5 ≤ 2 ^ (W * a0.length) * k2 := Nat.mul_le_mul_left _ (by omega)
+    omega
+  refine ⟨?_, by simp [t2, s2], t3.append (IsWords.cons (by omega) (IsWords.nil W))⟩
+  rw [val_append, t2, s2]
+  simp only [val_cons, val_nil, Nat.mul_zero, Nat.add_zero]
+  rw [Nat.mul_add]
+  omega
+
+theorem toomEval02_spec (W : Nat) (hW : 1 ≤ W) (a0 a2 : List Nat) (h0 : IsWords W a0)
+    (h2 : IsWords W a2) (hl : a2.length ≤ a0.length) :
+    val W (toomEval02 W a0 a2) = val W a0 + val W a2 ∧
+    (toomEval02 W a0 a2).length = a0.length + 1 ∧ IsWords W (toomEval02 W a0 a2) := by
+  obtain ⟨s1, s2, s3, s4⟩ := addInPlace_spec W a0 a2 h0 h2 hl
+  simp only [toomEval02]
+  generalize addInPlace W a0 a2 = res at s1 s2 s3 s4
+  obtain ⟨s, k⟩ := res
+  simp only at s1 s2 s3 s4 ⊢
+  have h1 : (1 : Nat) < 2 ^ W := Nat.one_lt_two_pow (by omega)
+  refine ⟨?_, by simp [s2], s3.append (IsWords.cons (by omega) (IsWords.nil W))⟩
+  rw [val_append, s2]
+  simp only [val_cons, val_nil, Nat.mul_zero, Nat.add_zero]
+  exact s1
+
+theorem val_snoc_split (W : Nat) (l : List Nat) (n : Nat) (h : l.length = n + 1) :
+    val W l = val W (l.take n) + 2 ^ (W * n) * l.getD n 0 := by
+  have h1 := val_take_add_drop W l n
+  rw [length_take_of_le (by omega), drop_eq_getD_cons l n (by omega)] at h1
+  have : l.drop (n + 1) = [] := List.drop_eq_nil_of_le (by omega)
+  rw [this] at h1
+  simpa using h1
+
+theorem toomEval1_spec (W : Nat) (hW : 2 ≤ W) (a02 a1 : List Nat) (h02 : IsWords W a02)
+    (h1 : IsWords W a1) (hl : a02.length = a1.length + 1) (htop : a02.getD a1.length 0 ≤ 1) :
+    val W (toomEval1 W a02 a1) = val W a02 + val W a1 ∧
+    (toomEval1 W a02 a1).length = a1.length + 1 ∧ IsWords W (toomEval1 W a02 a1) := by
+  have hsp := val_snoc_split W a02 a1.length hl
+  have htl : (a02.take a1.length).length = a1.length := length_take_of_le (by omega)
+  obtain ⟨s1, s2, s3, s4⟩ := addSameLen_spec W (a02.take a1.length) a1 0 (h02.take _) h1 htl (by omega)
+  simp only [toomEval1]
+  generalize addSameLen W (a02.take a1.length) a1 0 = res at s1 s2 s3 s4
+  obtain ⟨s, k⟩ := res
+  simp only at s1 s2 s3 s4 ⊢
+  rw [htl] at s1 s2
+  have h4 : 2 ^ 2 ≤ 2 ^ W := Nat.pow_le_pow_right (by omega) hW
+  refine ⟨?_, by simp [s2], s3.append (IsWords.cons (by omega) (IsWords.nil W))⟩
+  rw [val_append, s2, hsp]
+  simp only [val_cons, val_nil, Nat.mul_zero, Nat.add_zero]
+  rw [Nat.mul_add]
+  omega
+
+/-- the top word of `a02 = a0 + a2` is the carry bit -/
+theorem toomEval02_top (W : Nat) (a0 a2 : List Nat) (h0 : IsWords W a0) (h2 : IsWords W a2)
+    (hl : a2.length ≤ a0.length) : (toomEval02 W a0 a2).getD a0.length 0 ≤ 1 := by
+  obtain ⟨_, s2, _, s4⟩ := addInPlace_spec W a0 a2 h0 h2 hl
+  simp only [toomEval02]
+  generalize addInPlace W a0 a2 = res at s2 s4
+  obtain ⟨s, k⟩ := res
+  simp only at s2 s4 ⊢
+  rw [List.getD_eq_getElem?_getD, List.getElem?_append_right (by omega)]
+  simp [s2]; exact s4
+
+
+theorem sgn_bne (sa sb : Bool) : sgn (sa != sb) = sgn sa * sgn sb := by
+  cases sa <;> cases sb <;> simp [sgn]
+
+theorem pow_two_succ_succ (W n3 : Nat) (hW : 3 ≤ W) :
+    64 * (2 ^ (W * n3) * 2 ^ (W * n3)) ≤ 2 ^ (W * (2 * n3 + 2)) := by
+  have h1 : 2 ^ (W * (2 * n3 + 2)) = 2 ^ (W * n3) * 2 ^ (W * n3) * (2 ^ W * 2 ^ W) := by
+    rw [← Nat.pow_add, ← Nat.pow_add, ← Nat.pow_add]; congr 1; ring
+  have h8 : 2 ^ 3 ≤ 2 ^ W := Nat.pow_le_pow_right (by omega) hW
+  have h64 : 64 ≤ 2 ^ W * 2 ^ W := by
+    have := Nat.mul_le_mul h8 h8
+    simpa using this
+  rw [h1, Nat.mul_comm 64]
+  exact Nat.mul_le_mul_left _ h64
+
+set_option maxHeartbeats 1000000 in
+/-- every scratch buffer of Toom-3 that is added into `c` holds the value the interpolation formulas
+    promise; all the asserted-zero carries / borrows / remainders are zero on the way -/
+theorem toomScratch_spec (W : Nat) (hW : 4 ≤ W) (rec : MulKernel) (hrec : SameLenContract W rec)
+    (a b : List Nat) (hab : a.length = b.length) (hn : 16 ≤ a.length) (ha : IsWords W a)
+    (hb : IsWords W b) (n3 : Nat) (hn3 : n3 = (a.length + 2) / 3)
+    (A0 A1 A2 B0 B1 B2 : Nat)
+    (hA0 : A0 = val W (a.take n3)) (hA1 : A1 = val W ((a.drop n3).take n3))
+    (hA2 : A2 = val W (a.drop (2 * n3)))
+    (hB0 : B0 = val W (b.take n3)) (hB1 : B1 = val W ((b.drop n3).take n3))
+    (hB2 : B2 = val W (b.drop (2 * n3))) :
+    ((toomScratch W rec a b).v0.length = 2 * n3 ∧ IsWords W (toomScratch W rec a b).v0 ∧
+      val W (toomScratch W rec a b).v0 = A0 * B0) ∧
+    ((toomScratch W rec a b).vinf.length = 2 * (a.length - 2 * n3) ∧
+      IsWords W (toomScratch W rec a b).vinf ∧ val W (toomScratch W rec a b).vinf = A2 * B2) ∧
+    ((toomScratch W rec a b).t2a.length = 2 * n3 + 2 ∧ IsWords W (toomScratch W rec a b).t2a ∧
+      val W (toomScratch W rec a b).t2a = (A0 + A1 + A2) * (B0 + B1 + B2)) ∧
+    ((toomScratch W rec a b).t1.length = 2 * n3 + 2 ∧ IsWords W (toomScratch W rec a b).t1 ∧
+      val W (toomScratch W rec a b).t1
+        = A0 * B0 + (A0 * B2 + A1 * B1 + A2 * B0) + (A1 * B2 + A2 * B1) + A2 * B2) ∧
+    ((toomScratch W rec a b).t2.length = 2 * n3 + 2 ∧ IsWords W (toomScratch W rec a b).t2 ∧
+      val W (toomScratch W rec a b).t2 = A0 * B0 + (A0 * B2 + A1 * B1 + A2 * B0) + A2 * B2) := by
+  -- lengths of the six parts
+  have g1 : 2 * n3 ≤ a.length := by omega
+  have g2 : a.length - 2 * n3 ≤ n3 := by omega
+  have g3 : 1 ≤ n3 := by omega
+  have la0 : (a.take n3).length = n3 := length_take_of_le (by omega)
+  have lb0 : (b.take n3).length = n3 := length_take_of_le (by omega)
+  have la1 : ((a.drop n3).take n3).length = n3 := length_take_of_le (by rw [List.length_drop]; omega)
+  have lb1 : ((b.drop n3).take n3).length = n3 := length_take_of_le (by rw [List.length_drop]; omega)
+  have la2 : (a.drop (2 * n3)).length = a.length - 2 * n3 := List.length_drop ..
+  have lb2 : (b.drop (2 * n3)).length = a.length - 2 * n3 := by rw [List.length_drop, hab]
+  have wa0 := ha.take n3
+  have wb0 := hb.take n3
+  have wa1 := (ha.drop n3).take n3
+  have wb1 := (hb.drop n3).take n3
+  have wa2 := ha.drop (2 * n3)
+  have wb2 := hb.drop (2 * n3)
+  -- size bounds: every part is below x = B^n3
+  have xa0 := val_lt W _ wa0
+  have xb0 := val_lt W _ wb0
+  have xa1 := val_lt W _ wa1
+  have xb1 := val_lt W _ wb1
+  have xa2 := val_lt W _ wa2
+  have xb2 := val_lt W _ wb2
+  have hx2 : 2 ^ (W * (a.length - 2 * n3)) ≤ 2 ^ (W * n3) :=
+    Nat.pow_le_pow_right (by omega) (Nat.mul_le_mul_left _ g2)
+  rw [la0, ← hA0] at xa0
+  rw [lb0, ← hB0] at xb0
+  rw [la1, ← hA1] at xa1
+  rw [lb1, ← hB1] at xb1
+  rw [la2, ← hA2] at xa2
+  rw [lb2, ← hB2] at xb2
+  have xa2' : A2 < 2 ^ (W * n3) := Nat.lt_of_lt_of_le xa2 hx2
+  have xb2' : B2 < 2 ^ (W * n3) := Nat.lt_of_lt_of_le xb2 hx2
+  have h64 := pow_two_succ_succ W n3 (by omega)
+  have hP : ((2 : Int) ^ (W * (2 * n3 + 2))) = ((2 ^ (W * (2 * n3 + 2)) : Nat) : Int) := by push_cast; rfl
+  -- products of parts are below x²
+  have p00 := Nat.mul_lt_mul'' xa0 xb0
+  have p01 := Nat.mul_lt_mul'' xa0 xb1
+  have p02 := Nat.mul_lt_mul'' xa0 xb2'
+  have p10 := Nat.mul_lt_mul'' xa1 xb0
+  have p11 := Nat.mul_lt_mul'' xa1 xb1
+  have p12 := Nat.mul_lt_mul'' xa1 xb2'
+  have p20 := Nat.mul_lt_mul'' xa2' xb0
+  have p21 := Nat.mul_lt_mul'' xa2' xb1
+  have p22 := Nat.mul_lt_mul'' xa2' xb2'
+  generalize hX : 2 ^ (W * n3) * 2 ^ (W * n3) = X at *
+  simp only [toomScratch, ← hn3]
+  -- V(0)
+  have c0 := hrec (List.replicate (2 * n3) 0) false (a.take n3) (b.take n3) (by rw [la0, lb0])
+    (by rw [List.length_replicate, la0, lb0]; omega) (isWords_replicate_zero W _) wa0 wb0
+  obtain ⟨_, v0v, v0l, v0w⟩ := upd_zero_product W (2 * n3) _ _ _ c0
+    (mul_lt_pow_int W _ _ wa0 wb0 _ (by rw [la0, lb0]; omega))
+  rw [← hA0, ← hB0] at v0v
+  generalize (rec (List.replicate (2 * n3) 0) false (a.take n3) (b.take n3)).1 = v0 at v0v v0l v0w ⊢
+  -- t1 = 3 V(0)
+  obtain ⟨_, _, _, t1av, t1al, t1aw⟩ := mulWord_extend W v0 3 v0w
+    (Nat.lt_of_lt_of_le (by decide) (Nat.pow_le_pow_right (by omega) (by omega) : 2 ^ 3 ≤ 2 ^ W))
+  rw [v0v] at t1av
+  rw [v0l] at t1al
+  generalize (mulWordInPlace W v0 3 0).1 ++ [(mulWordInPlace W v0 3 0).2, 0] = t1a at t1av t1al t1aw ⊢
+  -- evaluation at 2
+  obtain ⟨e2av, e2al, e2aw⟩ := toomEval2_spec W (by omega) (a.take n3) ((a.drop n3).take n3) (a.drop (2 * n3))
+    wa0 wa1 wa2 (by rw [la0, la1]) (by rw [la0, la2]; exact g2)
+  obtain ⟨e2bv, e2bl, e2bw⟩ := toomEval2_spec W (by omega) (b.take n3) ((b.drop n3).take n3) (b.drop (2 * n3))
+    wb0 wb1 wb2 (by rw [lb0, lb1]) (by rw [lb0, lb2]; exact g2)
+  rw [← hA0, ← hA1, ← hA2] at e2av
+  rw [la0] at e2al
+  rw [← hB0, ← hB1, ← hB2] at e2bv
+  rw [lb0] at e2bl
+  generalize toomEval2 W (a.take n3) ((a.drop n3).take n3) (a.drop (2 * n3)) = e2a at e2av e2al e2aw ⊢
+  generalize toomEval2 W (b.take n3) ((b.drop n3).take n3) (b.drop (2 * n3)) = e2b at e2bv e2bl e2bw ⊢
+  -- t1 += V(2)
+  have hV2 : (A0 + 2 * A1 + 4 * A2) * (B0 + 2 * B1 + 4 * B2)
+      = A0 * B0 + 2 * (A0 * B1) + 4 * (A0 * B2) + 2 * (A1 * B0) + 4 * (A1 * B1) + 8 * (A1 * B2)
+        + 4 * (A2 * B0) + 8 * (A2 * B1) + 16 * (A2 * B2) := by ring
+  have c1 := hrec t1a false e2a e2b (by rw [e2al, e2bl]) (by rw [t1al, e2al, e2bl]; omega) t1aw e2aw e2bw
+  obtain ⟨_, t1bv, t1bl, t1bw⟩ := upd_exact W t1a _ _ _ c1
+    (by rw [t1av]; simp only [sgn, Bool.false_eq_true, if_false, one_mul]; positivity)
+    (by rw [t1av, t1al, hP]; simp only [sgn, Bool.false_eq_true, if_false, one_mul]
+        rw [e2av, e2bv, hV2]; norm_cast; omega)
+  rw [t1av, e2av, e2bv] at t1bv
+  rw [t1al] at t1bl
+  simp only [sgn, Bool.false_eq_true, if_false, one_mul] at t1bv
+  generalize (rec t1a false e2a e2b).1 = t1b at t1bv t1bl t1bw ⊢
+  -- V(inf)
+  have c2 := hrec (List.replicate (2 * (a.length - 2 * n3)) 0) false (a.drop (2 * n3)) (b.drop (2 * n3))
+    (by rw [la2, lb2]) (by rw [List.length_replicate, la2, lb2]; omega) (isWords_replicate_zero W _) wa2 wb2
+  obtain ⟨_, viv, vil, viw⟩ := upd_zero_product W (2 * (a.length - 2 * n3)) _ _ _ c2
+    (mul_lt_pow_int W _ _ wa2 wb2 _ (by rw [la2, lb2]; omega))
+  rw [← hA2, ← hB2] at viv
+  generalize (rec (List.replicate (2 * (a.length - 2 * n3)) 0) false (a.drop (2 * n3))
+    (b.drop (2 * n3))).1 = vinf at viv vil viw ⊢
+  -- 12 V(inf), subtracted from t1
+  obtain ⟨c12v, c12l, c12w, _, _, _⟩ := mulWord_extend W vinf 12 viw
+    (Nat.lt_of_lt_of_le (by decide) (Nat.pow_le_pow_right (by omega) (by omega) : 2 ^ 4 ≤ 2 ^ W))
+  rw [viv] at c12v
+  rw [vil] at c12l
+  generalize (mulWordInPlace W vinf 12 0).1 ++ [(mulWordInPlace W vinf 12 0).2] = c12 at c12v c12l c12w ⊢
+  have hle12 : val W c12 ≤ val W t1b := by
+    have h4a : 4 * A2 ≤ A0 + 2 * A1 + 4 * A2 := by omega
+    have h4b : 4 * B2 ≤ B0 + 2 * B1 + 4 * B2 := by omega
+    have := Nat.mul_le_mul h4a h4b
+    have e : 4 * A2 * (4 * B2) = 16 * (A2 * B2) := by ring
+    have t1bv' : val W t1b = A0 * B0 * 3 + (A0 + 2 * A1 + 4 * A2) * (B0 + 2 * B1 + 4 * B2) := by
+      exact_mod_cast t1bv
+    rw [c12v, t1bv']; omega
+  have hsl : c12.length ≤ t1b.length := by rw [c12l, t1bl]; omega
+  obtain ⟨sb1, sb2, sb3, _⟩ := subInPlace_spec W t1b c12 t1bw c12w hsl
+  have sb0 := (subInPlace_borrow_iff W t1b c12 t1bw c12w hsl).mpr hle12
+  rw [sb0, Nat.mul_zero, Nat.add_zero, c12v] at sb1
+  rw [t1bl] at sb2
+  generalize (subInPlace W t1b c12).1 = t1c at sb1 sb2 sb3 ⊢
+  -- evaluation at 1
+  obtain ⟨a02v, a02l, a02w⟩ := toomEval02_spec W (by omega) (a.take n3) (a.drop (2 * n3)) wa0 wa2
+    (by rw [la0, la2]; exact g2)
+  obtain ⟨b02v, b02l, b02w⟩ := toomEval02_spec W (by omega) (b.take n3) (b.drop (2 * n3)) wb0 wb2
+    (by rw [lb0, lb2]; exact g2)
+  have a02t := toomEval02_top W (a.take n3) (a.drop (2 * n3)) wa0 wa2 (by rw [la0, la2]; exact g2)
+  have b02t := toomEval02_top W (b.take n3) (b.drop (2 * n3)) wb0 wb2 (by rw [lb0, lb2]; exact g2)
+  rw [← hA0, ← hA2] at a02v
+  rw [← hB0, ← hB2] at b02v
+  rw [la0] at a02l a02t
+  rw [lb0] at b02l b02t
+  generalize toomEval02 W (a.take n3) (a.drop (2 * n3)) = a02 at a02v a02l a02w a02t ⊢
+  generalize toomEval02 W (b.take n3) (b.drop (2 * n3)) = b02 at b02v b02l b02w b02t ⊢
+  obtain ⟨e1av, e1al, e1aw⟩ := toomEval1_spec W (by omega) a02 ((a.drop n3).take n3) a02w wa1
+    (by rw [a02l, la1]) (by rw [la1]; exact a02t)
+  obtain ⟨e1bv, e1bl, e1bw⟩ := toomEval1_spec W (by omega) b02 ((b.drop n3).take n3) b02w wb1
+    (by rw [b02l, lb1]) (by rw [lb1]; exact b02t)
+  rw [a02v, ← hA1] at e1av
+  rw [b02v, ← hB1] at e1bv
+  rw [la1] at e1al
+  rw [lb1] at e1bl
+  generalize toomEval1 W a02 ((a.drop n3).take n3) = e1a at e1av e1al e1aw ⊢
+  generalize toomEval1 W b02 ((b.drop n3).take n3) = e1b at e1bv e1bl e1bw ⊢
+  -- t2 = V(1)
+  have c3 := hrec (List.replicate (2 * n3 + 2) 0) false e1a e1b (by rw [e1al, e1bl])
+    (by rw [List.length_replicate, e1al, e1bl]; omega) (isWords_replicate_zero W _) e1aw e1bw
+  obtain ⟨_, t2av, t2al, t2aw⟩ := upd_zero_product W (2 * n3 + 2) _ _ _ c3
+    (mul_lt_pow_int W _ _ e1aw e1bw _ (by rw [e1al, e1bl]; omega))
+  rw [e1av, e1bv] at t2av
+  generalize (rec (List.replicate (2 * n3 + 2) 0) false e1a e1b).1 = t2a at t2av t2al t2aw ⊢
+  -- V(-1)
+  obtain ⟨aml, amw, amv⟩ := sgn_diff W a02 ((a.drop n3).take n3) a02w wa1 (by rw [a02l, la1]; omega)
+  obtain ⟨bml, bmw, bmv⟩ := sgn_diff W b02 ((b.drop n3).take n3) b02w wb1 (by rw [b02l, lb1]; omega)
+  rw [a02v, ← hA1] at amv
+  rw [b02v, ← hB1] at bmv
+  rw [a02l] at aml
+  rw [b02l] at bml
+  generalize subInPlaceWithSign W a02 ((a.drop n3).take n3) = am at aml amw amv ⊢
+  generalize subInPlaceWithSign W b02 ((b.drop n3).take n3) = bm at bml bmw bmv ⊢
+  have c4 := hrec (List.replicate (2 * (n3 + 1)) 0) false am.2 bm.2 (by rw [aml, bml])
+    (by rw [List.length_replicate, aml, bml]; omega) (isWords_replicate_zero W _) amw bmw
+  obtain ⟨_, cev, cel, cew⟩ := upd_zero_product W (2 * (n3 + 1)) _ _ _ c4
+    (mul_lt_pow_int W _ _ amw bmw _ (by rw [aml, bml]; omega))
+  generalize (rec (List.replicate (2 * (n3 + 1)) 0) false am.2 bm.2).1 = cEval at cev cel cew ⊢
+  -- the signed value of V(-1)
+  have hvm : sgn (am.1 != bm.1) * (val W cEval : Int)
+      = ((A0 : Int) + A2 - A1) * ((B0 : Int) + B2 - B1) := by
+    rw [sgn_bne, cev]; push_cast
+    push_cast at amv bmv
+    rw [← amv, ← bmv]; ring
+  -- the two interpolation identities
+  have id1 : (3 : Int) * (A0 * B0) + ((A0 : Int) + 2 * A1 + 4 * A2) * ((B0 : Int) + 2 * B1 + 4 * B2)
+      - 12 * (A2 * B2) + 2 * (((A0 : Int) + A2 - A1) * ((B0 : Int) + B2 - B1))
+      = 6 * ((A0 * B0 + (A0 * B2 + A1 * B1 + A2 * B0) + (A1 * B2 + A2 * B1) + A2 * B2 : Nat) : Int) := by
+    push_cast; ring
+  have id2 : ((A0 : Int) + A2 + A1) * ((B0 : Int) + B2 + B1)
+      + ((A0 : Int) + A2 - A1) * ((B0 : Int) + B2 - B1)
+      = 2 * ((A0 * B0 + (A0 * B2 + A1 * B1 + A2 * B0) + A2 * B2 : Nat) : Int) := by
+    push_cast; ring
+  -- t2 += V(-1)
+  have u5 := addSignedSameLen_upd W t2a (am.1 != bm.1) cEval t2aw cew (by rw [t2al, cel]; omega)
+  obtain ⟨_, t2bv, t2bl, t2bw⟩ := upd_exact W t2a _ _ _ u5
+    (by rw [t2av, hvm]; push_cast; rw [id2]; positivity)
+    (by rw [t2av, hvm, t2al, hP]; push_cast; rw [id2]; norm_cast; omega)
+  rw [t2av, hvm] at t2bv
+  push_cast at t2bv
+  rw [id2] at t2bv
+  rw [t2al] at t2bl
+  generalize (addSignedSameLen W t2a (am.1 != bm.1) cEval).1 = t2b at t2bv t2bl t2bw ⊢
+  -- t1 += 2 V(-1)
+  have t1cv : (val W t1c : Int) = 3 * (A0 * B0)
+      + ((A0 : Int) + 2 * A1 + 4 * A2) * ((B0 : Int) + 2 * B1 + 4 * B2) - 12 * (A2 * B2) := by
+    have := congrArg (Nat.cast : Nat → Int) sb1
+    have h2 := t1bv
+    push_cast at this h2
+    linarith
+  have h2w : 2 < 2 ^ W :=
+    Nat.lt_of_lt_of_le (by decide) (Nat.pow_le_pow_right (by omega) (by omega) : 2 ^ 2 ≤ 2 ^ W)
+  have t1dv : ∃ t1d, (if (am.1 != bm.1) = true then (subMulWordSameLen W t1c 2 cEval).1
+        else (addMulWordSameLen W t1c 2 cEval).1) = t1d ∧ t1d.length = 2 * n3 + 2 ∧ IsWords W t1d ∧
+      val W t1d = 6 * (A0 * B0 + (A0 * B2 + A1 * B1 + A2 * B0) + (A1 * B2 + A2 * B1) + A2 * B2) := by
+    have hT : A0 * B0 + (A0 * B2 + A1 * B1 + A2 * B0) + (A1 * B2 + A2 * B1) + A2 * B2 < 7 * X := by omega
+    by_cases hv : (am.1 != bm.1) = true
+    · rw [if_pos hv]
+      rw [hv] at hvm
+      obtain ⟨q1, q2, q3, q4⟩ := subMulWordSameLen_spec W t1c 2 cEval sb3 cew (by rw [sb2, cel]; omega) h2w
+      refine ⟨_, rfl, by rw [q2, sb2], q3, ?_⟩
+      have blt := val_lt W _ q3
+      rw [q2, sb2] at blt
+      rw [sb2] at q1
+      generalize (subMulWordSameLen W t1c 2 cEval).1 = r at q1 blt ⊢
+      generalize (subMulWordSameLen W t1c 2 cEval).2 = bw at q1 ⊢
+      have q1' := congrArg (Nat.cast : Nat → Int) q1
+      push_cast at q1'
+      simp only [sgn, if_true] at hvm
+      have key : (val W r : Int) + 0 = 6 * ((A0 * B0 + (A0 * B2 + A1 * B1 + A2 * B0)
+          + (A1 * B2 + A2 * B1) + A2 * B2 : Nat) : Int)
+          + ((2 ^ (W * (2 * n3 + 2)) : Nat) : Int) * bw := by
+        rw [← id1]; push_cast; linarith
+      have hbw : bw = 0 := by
+        rcases Nat.eq_zero_or_pos bw with h | h
+        · exact h
+        · exfalso
+          have : 2 ^ (W * (2 * n3 + 2)) ≤ 2 ^ (W * (2 * n3 + 2)) * bw := Nat.le_mul_of_pos_right _ h
+          have key' : val W r = 6 * (A0 * B0 + (A0 * B2 + A1 * B1 + A2 * B0)
+              + (A1 * B2 + A2 * B1) + A2 * B2) + 2 ^ (W * (2 * n3 + 2)) * bw := by
+            have := key; simp only [add_zero] at this; exact_mod_cast this
+          omega
+      subst hbw
+      simp only [Nat.cast_zero, mul_zero, add_zero] at key
+      exact_mod_cast key
+    · rw [if_neg hv]
+      have hv' : (am.1 != bm.1) = false := by simpa using hv
+      rw [hv'] at hvm
+      obtain ⟨q1, q2, q3, q4⟩ := addMulWordSameLen_spec W t1c 2 cEval sb3 cew (by rw [sb2, cel]; omega) h2w
+      refine ⟨_, rfl, by rw [q2, sb2], q3, ?_⟩
+      rw [sb2] at q1
+      generalize (addMulWordSameLen W t1c 2 cEval).1 = r at q1 ⊢
+      generalize (addMulWordSameLen W t1c 2 cEval).2 = cw at q1 ⊢
+      have q1' := congrArg (Nat.cast : Nat → Int) q1
+      push_cast at q1'
+      simp only [sgn, Bool.false_eq_true, if_false, one_mul] at hvm
+      have key : (val W r : Int) + ((2 ^ (W * (2 * n3 + 2)) : Nat) : Int) * cw
+          = 6 * ((A0 * B0 + (A0 * B2 + A1 * B1 + A2 * B0) + (A1 * B2 + A2 * B1) + A2 * B2 : Nat) : Int) := by
+        rw [← id1]; push_cast; linarith
+      have key' : val W r + 2 ^ (W * (2 * n3 + 2)) * cw = 6 * (A0 * B0 + (A0 * B2 + A1 * B1 + A2 * B0)
+          + (A1 * B2 + A2 * B1) + A2 * B2) := by exact_mod_cast key
+      have hcw : cw = 0 := by
+        rcases Nat.eq_zero_or_pos cw with h | h
+        · exact h
+        · exfalso
+          have : 2 ^ (W * (2 * n3 + 2)) ≤ 2 ^ (W * (2 * n3 + 2)) * cw := Nat.le_mul_of_pos_right _ h
+          omega
+      subst hcw
+      simpa using key'
+  obtain ⟨t1d, t1de, t1dl, t1dw, t1dv'⟩ := t1dv
+  rw [t1de]
+  -- the exact divisions
+  have t2bv' : val W t2b = 2 * (A0 * B0 + (A0 * B2 + A1 * B1 + A2 * B0) + A2 * B2) := by
+    exact_mod_cast t2bv
+  have d6 : val W t1d / 6 = A0 * B0 + (A0 * B2 + A1 * B1 + A2 * B0) + (A1 * B2 + A2 * B1) + A2 * B2 := by
+    rw [t1dv']; exact Nat.mul_div_cancel_left _ (by decide)
+  have d2 : val W t2b / 2 = A0 * B0 + (A0 * B2 + A1 * B1 + A2 * B0) + A2 * B2 := by
+    rw [t2bv']; exact Nat.mul_div_cancel_left _ (by decide)
+  rw [d6, d2]
+  obtain ⟨f1v, f1l, f1w⟩ := wordsOfLen_spec W (2 * n3 + 2)
+    (A0 * B0 + (A0 * B2 + A1 * B1 + A2 * B0) + (A1 * B2 + A2 * B1) + A2 * B2)
+  obtain ⟨f2v, f2l, f2w⟩ := wordsOfLen_spec W (2 * n3 + 2)
+    (A0 * B0 + (A0 * B2 + A1 * B1 + A2 * B0) + A2 * B2)
+  rw [Nat.mod_eq_of_lt (by omega)] at f1v f2v
+  exact ⟨⟨v0l, v0w, v0v⟩, ⟨vil, viw, viv⟩, ⟨t2al, t2aw, by rw [t2av]; ring⟩, ⟨f1l, f1w, f1v⟩, ⟨f2l, f2w, f2v⟩⟩
+
+-- ====================================================================== Toom-3: the updates of c, step by step
+-- (generated text: thirteen window updates of `toomApply`, each chained with `upd_step`)
+
+def toomK13 (W n3 : Nat) (c : List Nat) (neg : Bool) (cC3 carry : Int) : List Nat × Int :=
+  let (w, k) := addSignedWord W (c.drop (5 * n3 + 2)) cC3
+  (setWindow c (5 * n3 + 2) w, carry + k)
+
+def toomK12 (W n3 : Nat) (c : List Nat) (neg : Bool) (cC2 cC3 carry : Int) : List Nat × Int :=
+  let (w, k) := addSignedWord W (window c (4 * n3 + 2) (5 * n3 + 2)) cC2
+  toomK13 W n3 (setWindow c (4 * n3 + 2) w) neg (cC3 + k) carry
+
+def toomK11 (W n3 : Nat) (c : List Nat) (neg : Bool) (cC1 cC2 cC3 carry : Int) : List Nat × Int :=
+  let (w, k) := addSignedWord W (window c (3 * n3 + 2) (4 * n3 + 2)) cC1
+  toomK12 W n3 (setWindow c (3 * n3 + 2) w) neg (cC2 + k) cC3 carry
+
+def toomK10 (W n3 : Nat) (c : List Nat) (neg : Bool) (cC0 cC1 cC2 cC3 carry : Int) : List Nat × Int :=
+  let (w, k) := addSignedWord W (window c (2 * n3) (3 * n3 + 2)) cC0
+  toomK11 W n3 (setWindow c (2 * n3) w) neg (cC1 + k) cC2 cC3 carry
+
+def toomK9 (W n3 : Nat) (c : List Nat) (neg : Bool) (t2 : List Nat) (cC0 cC1 cC2 cC3 carry : Int) : List Nat × Int :=
+  let (w, k) := addSignedSameLen W (window c (3 * n3) (5 * n3 + 2)) (!neg) t2
+  toomK10 W n3 (setWindow c (3 * n3) w) neg cC0 cC1 cC2 (cC3 + k) carry
+
+def toomK8 (W n3 : Nat) (c : List Nat) (neg : Bool) (t2 : List Nat) (cC0 cC1 cC2 cC3 carry : Int) : List Nat × Int :=
+  let (w, k) := addSignedSameLen W (window c (2 * n3) (4 * n3 + 2)) neg t2
+  toomK9 W n3 (setWindow c (2 * n3) w) neg t2 cC0 cC1 (cC2 + k) cC3 carry
+
+def toomK7 (W n3 : Nat) (c : List Nat) (neg : Bool) (t1 t2 : List Nat) (cC0 cC1 cC2 carry : Int) : List Nat × Int :=
+  let (w, k) := addSignedSameLen W (window c (3 * n3) (5 * n3 + 2)) neg t1
+  toomK8 W n3 (setWindow c (3 * n3) w) neg t2 cC0 cC1 cC2 k carry
+
+def toomK6 (W n3 : Nat) (c : List Nat) (neg : Bool) (t1 t2 : List Nat) (cC0 cC1 cC2 carry : Int) : List Nat × Int :=
+  let (w, k) := addSignedSameLen W (window c (n3) (3 * n3 + 2)) (!neg) t1
+  toomK7 W n3 (setWindow c (n3) w) neg t1 t2 cC0 (cC1 + k) cC2 carry
+
+def toomK5 (W n3 : Nat) (c : List Nat) (neg : Bool) (t2a t1 t2 : List Nat) (cC0 cC2 carry : Int) : List Nat × Int :=
+  let (w, k) := addSignedInPlace W (window c (n3) (3 * n3 + 2)) neg t2a
+  toomK6 W n3 (setWindow c (n3) w) neg t1 t2 cC0 k cC2 carry
+
+def toomK4 (W n3 : Nat) (c : List Nat) (neg : Bool) (vinf t2a t1 t2 : List Nat) (cC0 cC2 : Int) : List Nat × Int :=
+  let (w, k) := addSignedSameLen W (c.drop (4 * n3)) neg vinf
+  toomK5 W n3 (setWindow c (4 * n3) w) neg t2a t1 t2 cC0 cC2 k
+
+def toomK3 (W n3 : Nat) (c : List Nat) (neg : Bool) (vinf t2a t1 t2 : List Nat) (cC0 cC2 : Int) : List Nat × Int :=
+  let (w, k) := addSignedInPlace W (window c (2 * n3) (4 * n3 + 2)) (!neg) vinf
+  toomK4 W n3 (setWindow c (2 * n3) w) neg vinf t2a t1 t2 cC0 (cC2 + k)
+
+def toomK2 (W n3 : Nat) (c : List Nat) (neg : Bool) (v0 vinf t2a t1 t2 : List Nat) (cC0 : Int) : List Nat × Int :=
+  let (w, k) := addSignedInPlace W (window c (2 * n3) (4 * n3 + 2)) (!neg) v0
+  toomK3 W n3 (setWindow c (2 * n3) w) neg vinf t2a t1 t2 cC0 k
+
+def toomK1 (W n3 : Nat) (c : List Nat) (neg : Bool) (v0 vinf t2a t1 t2 : List Nat) : List Nat × Int :=
+  let (w, k) := addSignedSameLen W (window c (0) (2 * n3)) neg v0
+  toomK2 W n3 (setWindow c (0) w) neg v0 vinf t2a t1 t2 k
+
+theorem toomApply_eq (W n3 : Nat) (c : List Nat) (neg : Bool) (v0 vinf t2a t1 t2 : List Nat) :
+    toomApply W n3 c neg v0 vinf t2a t1 t2 = toomK1 W n3 c neg v0 vinf t2a t1 t2 := rfl
+
+theorem list_delta_bound (W : Nat) (neg : Bool) (l : List Nat) (hl : IsWords W l) (m : Nat)
+    (h : l.length ≤ m) : |sgn neg * (val W l : Int)| < (2 : Int) ^ (W * m) := by
+  rw [abs_sgn_mul]
+  have h1 := val_lt W l hl
+  have h2 : 2 ^ (W * l.length) ≤ 2 ^ (W * m) := Nat.pow_le_pow_right (by omega) (Nat.mul_le_mul_left _ h)
+  have : val W l < 2 ^ (W * m) := Nat.lt_of_lt_of_le h1 h2
+  exact_mod_cast this
+
+theorem small_carry_bound (W : Nat) (hW : 4 ≤ W) (x : Int) (h1 : -15 ≤ x) (h2 : x ≤ 15) (m : Nat)
+    (hm : 1 ≤ m) : |x| < (2 : Int) ^ (W * m) := by
+  have : 2 ^ 4 ≤ 2 ^ (W * m) := Nat.pow_le_pow_right (by omega) (by
+    have : W * 1 ≤ W * m := Nat.mul_le_mul_left _ hm
+    omega)
+  have h16 : (16 : Int) ≤ (2 : Int) ^ (W * m) := by exact_mod_cast this
+  exact abs_lt.mpr ⟨by linarith, by linarith⟩
+
+theorem toomK13_spec (W n3 : Nat) (hW : 4 ≤ W) (hn3 : 1 ≤ n3) (c : List Nat) (neg : Bool) (cC3 carry : Int)
+    (hc : IsWords W c) (hL : 5 * n3 + 2 ≤ c.length) (hL2 : c.length ≤ 6 * n3) (hb_cC3 : -3 ≤ cC3 ∧ cC3 ≤ 3) :
+    Upd W c (toomK13 W n3 c neg cC3 carry).1 (toomK13 W n3 c neg cC3 carry).2
+      ((2 : Int) ^ (W * (5 * n3 + 2)) * cC3
+        + (2 : Int) ^ (W * (c.length)) * carry) := by
+  have hwl := window_length c (5 * n3 + 2) (c.length) (by omega)
+  have hww := window_words hc (5 * n3 + 2) (c.length)
+  have hu := addSignedWord_upd W (window c (5 * n3 + 2) (c.length)) cC3 hww (by
+    have := small_carry_bound W hW cC3 (by omega) (by omega) 1 (by omega)
+    simpa using this)
+  simp only [toomK13]
+  rw [drop_eq_window c (5 * n3 + 2)]
+  generalize addSignedWord W (window c (5 * n3 + 2) (c.length)) cC3 = res at hu
+  obtain ⟨w, k⟩ := res
+  simp only at hu ⊢
+  obtain ⟨s1, s2, s3⟩ := setWindow_upd W c (5 * n3 + 2) (c.length) (by omega) (by omega) hc w k _ hu
+  refine ⟨s1, s2, ?_⟩
+  rw [s3]; ring
+
+theorem toomK12_spec (W n3 : Nat) (hW : 4 ≤ W) (hn3 : 1 ≤ n3) (c : List Nat) (neg : Bool) (cC2 cC3 carry : Int)
+    (hc : IsWords W c) (hL : 5 * n3 + 2 ≤ c.length) (hL2 : c.length ≤ 6 * n3) (hb_cC2 : -4 ≤ cC2 ∧ cC2 ≤ 4) (hb_cC3 : -2 ≤ cC3 ∧ cC3 ≤ 2) :
+    Upd W c (toomK12 W n3 c neg cC2 cC3 carry).1 (toomK12 W n3 c neg cC2 cC3 carry).2
+      ((2 : Int) ^ (W * (4 * n3 + 2)) * cC2
+        + (2 : Int) ^ (W * (5 * n3 + 2)) * cC3
+        + (2 : Int) ^ (W * (c.length)) * carry) := by
+  have hwl := window_length c (4 * n3 + 2) (5 * n3 + 2) (by omega)
+  have hww := window_words hc (4 * n3 + 2) (5 * n3 + 2)
+  have hu := addSignedWord_upd W (window c (4 * n3 + 2) (5 * n3 + 2)) cC2 hww (by
+    have := small_carry_bound W hW cC2 (by omega) (by omega) 1 (by omega)
+    simpa using this)
+  have hb := hu.carry_bound hww (small_carry_bound W hW cC2 (by omega) (by omega) _ (by rw [hwl]; omega))
+  simp only [toomK12]
+  generalize addSignedWord W (window c (4 * n3 + 2) (5 * n3 + 2)) cC2 = res at hu hb
+  obtain ⟨w, k⟩ := res
+  simp only at hu hb ⊢
+  obtain ⟨s1, s2, s3⟩ := setWindow_upd W c (4 * n3 + 2) (5 * n3 + 2) (by omega) (by omega) hc w k _ hu
+  have hnext := toomK13_spec W n3 hW hn3 (setWindow c (4 * n3 + 2) w) neg (cC3 + k) carry s2 (by rw [s1]; exact hL) (by rw [s1]; exact hL2) ⟨by linarith [hb.1, hb_cC3.1], by linarith [hb.2, hb_cC3.2]⟩
+  have := upd_step W c (4 * n3 + 2) (5 * n3 + 2) (by omega) (by omega) hc w k _ hu _ _ hnext
+  try simp only [s1] at this
+  refine ⟨this.1, this.2.1, ?_⟩
+  rw [this.2.2]; ring
+
+theorem toomK11_spec (W n3 : Nat) (hW : 4 ≤ W) (hn3 : 1 ≤ n3) (c : List Nat) (neg : Bool) (cC1 cC2 cC3 carry : Int)
+    (hc : IsWords W c) (hL : 5 * n3 + 2 ≤ c.length) (hL2 : c.length ≤ 6 * n3) (hb_cC2 : -3 ≤ cC2 ∧ cC2 ≤ 3) (hb_cC1 : -3 ≤ cC1 ∧ cC1 ≤ 3) (hb_cC3 : -2 ≤ cC3 ∧ cC3 ≤ 2) :
+    Upd W c (toomK11 W n3 c neg cC1 cC2 cC3 carry).1 (toomK11 W n3 c neg cC1 cC2 cC3 carry).2
+      ((2 : Int) ^ (W * (3 * n3 + 2)) * cC1
+        + (2 : Int) ^ (W * (4 * n3 + 2)) * cC2
+        + (2 : Int) ^ (W * (5 * n3 + 2)) * cC3
+        + (2 : Int) ^ (W * (c.length)) * carry) := by
+  have hwl := window_length c (3 * n3 + 2) (4 * n3 + 2) (by omega)
+  have hww := window_words hc (3 * n3 + 2) (4 * n3 + 2)
+  have hu := addSignedWord_upd W (window c (3 * n3 + 2) (4 * n3 + 2)) cC1 hww (by
+    have := small_carry_bound W hW cC1 (by omega) (by omega) 1 (by omega)
+    simpa using this)
+  have hb := hu.carry_bound hww (small_carry_bound W hW cC1 (by omega) (by omega) _ (by rw [hwl]; omega))
+  simp only [toomK11]
+  generalize addSignedWord W (window c (3 * n3 + 2) (4 * n3 + 2)) cC1 = res at hu hb
+  obtain ⟨w, k⟩ := res
+  simp only at hu hb ⊢
+  obtain ⟨s1, s2, s3⟩ := setWindow_upd W c (3 * n3 + 2) (4 * n3 + 2) (by omega) (by omega) hc w k _ hu
+  have hnext := toomK12_spec W n3 hW hn3 (setWindow c (3 * n3 + 2) w) neg (cC2 + k) cC3 carry s2 (by rw [s1]; exact hL) (by rw [s1]; exact hL2) ⟨by linarith [hb.1, hb_cC2.1], by linarith [hb.2, hb_cC2.2]⟩ hb_cC3
+  have := upd_step W c (3 * n3 + 2) (4 * n3 + 2) (by omega) (by omega) hc w k _ hu _ _ hnext
+  try simp only [s1] at this
+  refine ⟨this.1, this.2.1, ?_⟩
+  rw [this.2.2]; ring
+
+theorem toomK10_spec (W n3 : Nat) (hW : 4 ≤ W) (hn3 : 1 ≤ n3) (c : List Nat) (neg : Bool) (cC0 cC1 cC2 cC3 carry : Int)
+    (hc : IsWords W c) (hL : 5 * n3 + 2 ≤ c.length) (hL2 : c.length ≤ 6 * n3) (hb_cC0 : -1 ≤ cC0 ∧ cC0 ≤ 1) (hb_cC2 : -3 ≤ cC2 ∧ cC2 ≤ 3) (hb_cC1 : -2 ≤ cC1 ∧ cC1 ≤ 2) (hb_cC3 : -2 ≤ cC3 ∧ cC3 ≤ 2) :
+    Upd W c (toomK10 W n3 c neg cC0 cC1 cC2 cC3 carry).1 (toomK10 W n3 c neg cC0 cC1 cC2 cC3 carry).2
+      ((2 : Int) ^ (W * (2 * n3)) * cC0
+        + (2 : Int) ^ (W * (3 * n3 + 2)) * cC1
+        + (2 : Int) ^ (W * (4 * n3 + 2)) * cC2
+        + (2 : Int) ^ (W * (5 * n3 + 2)) * cC3
+        + (2 : Int) ^ (W * (c.length)) * carry) := by
+  have hwl := window_length c (2 * n3) (3 * n3 + 2) (by omega)
+  have hww := window_words hc (2 * n3) (3 * n3 + 2)
+  have hu := addSignedWord_upd W (window c (2 * n3) (3 * n3 + 2)) cC0 hww (by
+    have := small_carry_bound W hW cC0 (by omega) (by omega) 1 (by omega)
+    simpa using this)
+  have hb := hu.carry_bound hww (small_carry_bound W hW cC0 (by omega) (by omega) _ (by rw [hwl]; omega))
+  simp only [toomK10]
+  generalize addSignedWord W (window c (2 * n3) (3 * n3 + 2)) cC0 = res at hu hb
+  obtain ⟨w, k⟩ := res
+  simp only at hu hb ⊢
+  obtain ⟨s1, s2, s3⟩ := setWindow_upd W c (2 * n3) (3 * n3 + 2) (by omega) (by omega) hc w k _ hu
+  have hnext := toomK11_spec W n3 hW hn3 (setWindow c (2 * n3) w) neg (cC1 + k) cC2 cC3 carry s2 (by rw [s1]; exact hL) (by rw [s1]; exact hL2) hb_cC2 ⟨by linarith [hb.1, hb_cC1.1], by linarith [hb.2, hb_cC1.2]⟩ hb_cC3
+  have := upd_step W c (2 * n3) (3 * n3 + 2) (by omega) (by omega) hc w k _ hu _ _ hnext
+  try simp only [s1] at this
+  refine ⟨this.1, this.2.1, ?_⟩
+  rw [this.2.2]; ring
+
+theorem toomK9_spec (W n3 : Nat) (hW : 4 ≤ W) (hn3 : 1 ≤ n3) (c : List Nat) (neg : Bool) (t2 : List Nat) (cC0 cC1 cC2 cC3 carry : Int)
+    (hc : IsWords W c) (hL : 5 * n3 + 2 ≤ c.length) (hL2 : c.length ≤ 6 * n3) (hw_t2 : IsWords W t2) (hl_t2 : t2.length = 2 * n3 + 2) (hb_cC0 : -1 ≤ cC0 ∧ cC0 ≤ 1) (hb_cC2 : -3 ≤ cC2 ∧ cC2 ≤ 3) (hb_cC1 : -2 ≤ cC1 ∧ cC1 ≤ 2) (hb_cC3 : -1 ≤ cC3 ∧ cC3 ≤ 1) :
+    Upd W c (toomK9 W n3 c neg t2 cC0 cC1 cC2 cC3 carry).1 (toomK9 W n3 c neg t2 cC0 cC1 cC2 cC3 carry).2
+      ((2 : Int) ^ (W * (3 * n3)) * (sgn (!neg) * (val W t2 : Int))
+        + (2 : Int) ^ (W * (2 * n3)) * cC0
+        + (2 : Int) ^ (W * (3 * n3 + 2)) * cC1
+        + (2 : Int) ^ (W * (4 * n3 + 2)) * cC2
+        + (2 : Int) ^ (W * (5 * n3 + 2)) * cC3
+        + (2 : Int) ^ (W * (c.length)) * carry) := by
+  have hwl := window_length c (3 * n3) (5 * n3 + 2) (by omega)
+  have hww := window_words hc (3 * n3) (5 * n3 + 2)
+  have hu := addSignedSameLen_upd W (window c (3 * n3) (5 * n3 + 2)) (!neg) t2 hww hw_t2 (by rw [hwl]; omega)
+  have hb := hu.carry_bound hww (list_delta_bound W _ t2 hw_t2 _ (by rw [hwl]; omega))
+  simp only [toomK9]
+  generalize addSignedSameLen W (window c (3 * n3) (5 * n3 + 2)) (!neg) t2 = res at hu hb
+  obtain ⟨w, k⟩ := res
+  simp only at hu hb ⊢
+  obtain ⟨s1, s2, s3⟩ := setWindow_upd W c (3 * n3) (5 * n3 + 2) (by omega) (by omega) hc w k _ hu
+  have hnext := toomK10_spec W n3 hW hn3 (setWindow c (3 * n3) w) neg cC0 cC1 cC2 (cC3 + k) carry s2 (by rw [s1]; exact hL) (by rw [s1]; exact hL2) hb_cC0 hb_cC2 hb_cC1 ⟨by linarith [hb.1, hb_cC3.1], by linarith [hb.2, hb_cC3.2]⟩
+  have := upd_step W c (3 * n3) (5 * n3 + 2) (by omega) (by omega) hc w k _ hu _ _ hnext
+  try simp only [s1] at this
+  refine ⟨this.1, this.2.1, ?_⟩
+  rw [this.2.2]; ring
+
+theorem toomK8_spec (W n3 : Nat) (hW : 4 ≤ W) (hn3 : 1 ≤ n3) (c : List Nat) (neg : Bool) (t2 : List Nat) (cC0 cC1 cC2 cC3 carry : Int)
+    (hc : IsWords W c) (hL : 5 * n3 + 2 ≤ c.length) (hL2 : c.length ≤ 6 * n3) (hw_t2 : IsWords W t2) (hl_t2 : t2.length = 2 * n3 + 2) (hb_cC0 : -1 ≤ cC0 ∧ cC0 ≤ 1) (hb_cC2 : -2 ≤ cC2 ∧ cC2 ≤ 2) (hb_cC1 : -2 ≤ cC1 ∧ cC1 ≤ 2) (hb_cC3 : -1 ≤ cC3 ∧ cC3 ≤ 1) :
+    Upd W c (toomK8 W n3 c neg t2 cC0 cC1 cC2 cC3 carry).1 (toomK8 W n3 c neg t2 cC0 cC1 cC2 cC3 carry).2
+      ((2 : Int) ^ (W * (2 * n3)) * (sgn neg * (val W t2 : Int))
+        + (2 : Int) ^ (W * (3 * n3)) * (sgn (!neg) * (val W t2 : Int))
+        + (2 : Int) ^ (W * (2 * n3)) * cC0
+        + (2 : Int) ^ (W * (3 * n3 + 2)) * cC1
+        + (2 : Int) ^ (W * (4 * n3 + 2)) * cC2
+        + (2 : Int) ^ (W * (5 * n3 + 2)) * cC3
+        + (2 : Int) ^ (W * (c.length)) * carry) := by
+  have hwl := window_length c (2 * n3) (4 * n3 + 2) (by omega)
+  have hww := window_words hc (2 * n3) (4 * n3 + 2)
+  have hu := addSignedSameLen_upd W (window c (2 * n3) (4 * n3 + 2)) neg t2 hww hw_t2 (by rw [hwl]; omega)
+  have hb := hu.carry_bound hww (list_delta_bound W _ t2 hw_t2 _ (by rw [hwl]; omega))
+  simp only [toomK8]
+  generalize addSignedSameLen W (window c (2 * n3) (4 * n3 + 2)) neg t2 = res at hu hb
+  obtain ⟨w, k⟩ := res
+  simp only at hu hb ⊢
+  obtain ⟨s1, s2, s3⟩ := setWindow_upd W c (2 * n3) (4 * n3 + 2) (by omega) (by omega) hc w k _ hu
+  have hnext := toomK9_spec W n3 hW hn3 (setWindow c (2 * n3) w) neg t2 cC0 cC1 (cC2 + k) cC3 carry s2 (by rw [s1]; exact hL) (by rw [s1]; exact hL2) hw_t2 hl_t2 hb_cC0 ⟨by linarith [hb.1, hb_cC2.1], by linarith [hb.2, hb_cC2.2]⟩ hb_cC1 hb_cC3
+  have := upd_step W c (2 * n3) (4 * n3 + 2) (by omega) (by omega) hc w k _ hu _ _ hnext
+  try simp only [s1] at this
+  refine ⟨this.1, this.2.1, ?_⟩
+  rw [this.2.2]; ring
+
+theorem toomK7_spec (W n3 : Nat) (hW : 4 ≤ W) (hn3 : 1 ≤ n3) (c : List Nat) (neg : Bool) (t1 t2 : List Nat) (cC0 cC1 cC2 carry : Int)
+    (hc : IsWords W c) (hL : 5 * n3 + 2 ≤ c.length) (hL2 : c.length ≤ 6 * n3) (hw_t1 : IsWords W t1) (hw_t2 : IsWords W t2) (hl_t1 : t1.length = 2 * n3 + 2) (hl_t2 : t2.length = 2 * n3 + 2) (hb_cC0 : -1 ≤ cC0 ∧ cC0 ≤ 1) (hb_cC2 : -2 ≤ cC2 ∧ cC2 ≤ 2) (hb_cC1 : -2 ≤ cC1 ∧ cC1 ≤ 2) :
+    Upd W c (toomK7 W n3 c neg t1 t2 cC0 cC1 cC2 carry).1 (toomK7 W n3 c neg t1 t2 cC0 cC1 cC2 carry).2
+      ((2 : Int) ^ (W * (3 * n3)) * (sgn neg * (val W t1 : Int))
+        + (2 : Int) ^ (W * (2 * n3)) * (sgn neg * (val W t2 : Int))
+        + (2 : Int) ^ (W * (3 * n3)) * (sgn (!neg) * (val W t2 : Int))
+        + (2 : Int) ^ (W * (2 * n3)) * cC0
+        + (2 : Int) ^ (W * (3 * n3 + 2)) * cC1
+        + (2 : Int) ^ (W * (4 * n3 + 2)) * cC2
+        + (2 : Int) ^ (W * (c.length)) * carry) := by
+  have hwl := window_length c (3 * n3) (5 * n3 + 2) (by omega)
+  have hww := window_words hc (3 * n3) (5 * n3 + 2)
+  have hu := addSignedSameLen_upd W (window c (3 * n3) (5 * n3 + 2)) neg t1 hww hw_t1 (by rw [hwl]; omega)
+  have hb := hu.carry_bound hww (list_delta_bound W _ t1 hw_t1 _ (by rw [hwl]; omega))
+  simp only [toomK7]
+  generalize addSignedSameLen W (window c (3 * n3) (5 * n3 + 2)) neg t1 = res at hu hb
+  obtain ⟨w, k⟩ := res
+  simp only at hu hb ⊢
+  obtain ⟨s1, s2, s3⟩ := setWindow_upd W c (3 * n3) (5 * n3 + 2) (by omega) (by omega) hc w k _ hu
+  have hnext := toomK8_spec W n3 hW hn3 (setWindow c (3 * n3) w) neg t2 cC0 cC1 cC2 k carry s2 (by rw [s1]; exact hL) (by rw [s1]; exact hL2) hw_t2 hl_t2 hb_cC0 hb_cC2 hb_cC1 ⟨hb.1, hb.2⟩
+  have := upd_step W c (3 * n3) (5 * n3 + 2) (by omega) (by omega) hc w k _ hu _ _ hnext
+  try simp only [s1] at this
+  refine ⟨this.1, this.2.1, ?_⟩
+  rw [this.2.2]; ring
+
+theorem toomK6_spec (W n3 : Nat) (hW : 4 ≤ W) (hn3 : 1 ≤ n3) (c : List Nat) (neg : Bool) (t1 t2 : List Nat) (cC0 cC1 cC2 carry : Int)
+    (hc : IsWords W c) (hL : 5 * n3 + 2 ≤ c.length) (hL2 : c.length ≤ 6 * n3) (hw_t1 : IsWords W t1) (hw_t2 : IsWords W t2) (hl_t1 : t1.length = 2 * n3 + 2) (hl_t2 : t2.length = 2 * n3 + 2) (hb_cC0 : -1 ≤ cC0 ∧ cC0 ≤ 1) (hb_cC2 : -2 ≤ cC2 ∧ cC2 ≤ 2) (hb_cC1 : -1 ≤ cC1 ∧ cC1 ≤ 1) :
+    Upd W c (toomK6 W n3 c neg t1 t2 cC0 cC1 cC2 carry).1 (toomK6 W n3 c neg t1 t2 cC0 cC1 cC2 carry).2
+      ((2 : Int) ^ (W * (n3)) * (sgn (!neg) * (val W t1 : Int))
+        + (2 : Int) ^ (W * (3 * n3)) * (sgn neg * (val W t1 : Int))
+        + (2 : Int) ^ (W * (2 * n3)) * (sgn neg * (val W t2 : Int))
+        + (2 : Int) ^ (W * (3 * n3)) * (sgn (!neg) * (val W t2 : Int))
+        + (2 : Int) ^ (W * (2 * n3)) * cC0
+        + (2 : Int) ^ (W * (3 * n3 + 2)) * cC1
+        + (2 : Int) ^ (W * (4 * n3 + 2)) * cC2
+        + (2 : Int) ^ (W * (c.length)) * carry) := by
+  have hwl := window_length c (n3) (3 * n3 + 2) (by omega)
+  have hww := window_words hc (n3) (3 * n3 + 2)
+  have hu := addSignedSameLen_upd W (window c (n3) (3 * n3 + 2)) (!neg) t1 hww hw_t1 (by rw [hwl]; omega)
+  have hb := hu.carry_bound hww (list_delta_bound W _ t1 hw_t1 _ (by rw [hwl]; omega))
+  simp only [toomK6]
+  generalize addSignedSameLen W (window c (n3) (3 * n3 + 2)) (!neg) t1 = res at hu hb
+  obtain ⟨w, k⟩ := res
+  simp only at hu hb ⊢
+  obtain ⟨s1, s2, s3⟩ := setWindow_upd W c (n3) (3 * n3 + 2) (by omega) (by omega) hc w k _ hu
+  have hnext := toomK7_spec W n3 hW hn3 (setWindow c (n3) w) neg t1 t2 cC0 (cC1 + k) cC2 carry s2 (by rw [s1]; exact hL) (by rw [s1]; exact hL2) hw_t1 hw_t2 hl_t1 hl_t2 hb_cC0 hb_cC2 ⟨by linarith [hb.1, hb_cC1.1], by linarith [hb.2, hb_cC1.2]⟩
+  have := upd_step W c (n3) (3 * n3 + 2) (by omega) (by omega) hc w k _ hu _ _ hnext
+  try simp only [s1] at this
+  refine ⟨this.1, this.2.1, ?_⟩
+  rw [this.2.2]; ring
+
+theorem toomK5_spec (W n3 : Nat) (hW : 4 ≤ W) (hn3 : 1 ≤ n3) (c : List Nat) (neg : Bool) (t2a t1 t2 : List Nat) (cC0 cC2 carry : Int)
+    (hc : IsWords W c) (hL : 5 * n3 + 2 ≤ c.length) (hL2 : c.length ≤ 6 * n3) (hw_t2a : IsWords W t2a) (hw_t1 : IsWords W t1) (hw_t2 : IsWords W t2) (hl_t2a : t2a.length = 2 * n3 + 2) (hl_t1 : t1.length = 2 * n3 + 2) (hl_t2 : t2.length = 2 * n3 + 2) (hb_cC0 : -1 ≤ cC0 ∧ cC0 ≤ 1) (hb_cC2 : -2 ≤ cC2 ∧ cC2 ≤ 2) :
+    Upd W c (toomK5 W n3 c neg t2a t1 t2 cC0 cC2 carry).1 (toomK5 W n3 c neg t2a t1 t2 cC0 cC2 carry).2
+      ((2 : Int) ^ (W * (n3)) * (sgn neg * (val W t2a : Int))
+        + (2 : Int) ^ (W * (n3)) * (sgn (!neg) * (val W t1 : Int))
+        + (2 : Int) ^ (W * (3 * n3)) * (sgn neg * (val W t1 : Int))
+        + (2 : Int) ^ (W * (2 * n3)) * (sgn neg * (val W t2 : Int))
+        + (2 : Int) ^ (W * (3 * n3)) * (sgn (!neg) * (val W t2 : Int))
+        + (2 : Int) ^ (W * (2 * n3)) * cC0
+        + (2 : Int) ^ (W * (4 * n3 + 2)) * cC2
+        + (2 : Int) ^ (W * (c.length)) * carry) := by
+  have hwl := window_length c (n3) (3 * n3 + 2) (by omega)
+  have hww := window_words hc (n3) (3 * n3 + 2)
+  have hu := addSignedInPlace_upd W (window c (n3) (3 * n3 + 2)) neg t2a hww hw_t2a (by rw [hwl]; omega)
+  have hb := hu.carry_bound hww (list_delta_bound W _ t2a hw_t2a _ (by rw [hwl]; omega))
+  simp only [toomK5]
+  generalize addSignedInPlace W (window c (n3) (3 * n3 + 2)) neg t2a = res at hu hb
+  obtain ⟨w, k⟩ := res
+  simp only at hu hb ⊢
+  obtain ⟨s1, s2, s3⟩ := setWindow_upd W c (n3) (3 * n3 + 2) (by omega) (by omega) hc w k _ hu
+  have hnext := toomK6_spec W n3 hW hn3 (setWindow c (n3) w) neg t1 t2 cC0 k cC2 carry s2 (by rw [s1]; exact hL) (by rw [s1]; exact hL2) hw_t1 hw_t2 hl_t1 hl_t2 hb_cC0 hb_cC2 ⟨hb.1, hb.2⟩
+  have := upd_step W c (n3) (3 * n3 + 2) (by omega) (by omega) hc w k _ hu _ _ hnext
+  try simp only [s1] at this
+  refine ⟨this.1, this.2.1, ?_⟩
+  rw [this.2.2]; ring
+
+theorem toomK4_spec (W n3 : Nat) (hW : 4 ≤ W) (hn3 : 1 ≤ n3) (c : List Nat) (neg : Bool) (vinf t2a t1 t2 : List Nat) (cC0 cC2 : Int)
+    (hc : IsWords W c) (hL : 5 * n3 + 2 ≤ c.length) (hL2 : c.length ≤ 6 * n3) (hw_vinf : IsWords W vinf) (hw_t2a : IsWords W t2a) (hw_t1 : IsWords W t1) (hw_t2 : IsWords W t2) (hl_vinf : vinf.length + 4 * n3 = c.length) (hl_t2a : t2a.length = 2 * n3 + 2) (hl_t1 : t1.length = 2 * n3 + 2) (hl_t2 : t2.length = 2 * n3 + 2) (hb_cC0 : -1 ≤ cC0 ∧ cC0 ≤ 1) (hb_cC2 : -2 ≤ cC2 ∧ cC2 ≤ 2) :
+    Upd W c (toomK4 W n3 c neg vinf t2a t1 t2 cC0 cC2).1 (toomK4 W n3 c neg vinf t2a t1 t2 cC0 cC2).2
+      ((2 : Int) ^ (W * (4 * n3)) * (sgn neg * (val W vinf : Int))
+        + (2 : Int) ^ (W * (n3)) * (sgn neg * (val W t2a : Int))
+        + (2 : Int) ^ (W * (n3)) * (sgn (!neg) * (val W t1 : Int))
+        + (2 : Int) ^ (W * (3 * n3)) * (sgn neg * (val W t1 : Int))
+        + (2 : Int) ^ (W * (2 * n3)) * (sgn neg * (val W t2 : Int))
+        + (2 : Int) ^ (W * (3 * n3)) * (sgn (!neg) * (val W t2 : Int))
+        + (2 : Int) ^ (W * (2 * n3)) * cC0
+        + (2 : Int) ^ (W * (4 * n3 + 2)) * cC2) := by
+  have hwl := window_length c (4 * n3) (c.length) (by omega)
+  have hww := window_words hc (4 * n3) (c.length)
+  have hu := addSignedSameLen_upd W (window c (4 * n3) (c.length)) neg vinf hww hw_vinf (by rw [hwl]; omega)
+  have hb := hu.carry_bound hww (list_delta_bound W _ vinf hw_vinf _ (by rw [hwl]; omega))
+  simp only [toomK4]
+  rw [drop_eq_window c (4 * n3)]
+  generalize addSignedSameLen W (window c (4 * n3) (c.length)) neg vinf = res at hu hb
+  obtain ⟨w, k⟩ := res
+  simp only at hu hb ⊢
+  obtain ⟨s1, s2, s3⟩ := setWindow_upd W c (4 * n3) (c.length) (by omega) (by omega) hc w k _ hu
+  have hnext := toomK5_spec W n3 hW hn3 (setWindow c (4 * n3) w) neg t2a t1 t2 cC0 cC2 k s2 (by rw [s1]; exact hL) (by rw [s1]; exact hL2) hw_t2a hw_t1 hw_t2 hl_t2a hl_t1 hl_t2 hb_cC0 hb_cC2
+  have := upd_step W c (4 * n3) (c.length) (by omega) (by omega) hc w k _ hu _ _ hnext
+  try simp only [s1] at this
+  refine ⟨this.1, this.2.1, ?_⟩
+  rw [this.2.2]; ring
+
+theorem toomK3_spec (W n3 : Nat) (hW : 4 ≤ W) (hn3 : 1 ≤ n3) (c : List Nat) (neg : Bool) (vinf t2a t1 t2 : List Nat) (cC0 cC2 : Int)
+    (hc : IsWords W c) (hL : 5 * n3 + 2 ≤ c.length) (hL2 : c.length ≤ 6 * n3) (hw_vinf : IsWords W vinf) (hw_t2a : IsWords W t2a) (hw_t1 : IsWords W t1) (hw_t2 : IsWords W t2) (hl_vinf : vinf.length + 4 * n3 = c.length) (hl_t2a : t2a.length = 2 * n3 + 2) (hl_t1 : t1.length = 2 * n3 + 2) (hl_t2 : t2.length = 2 * n3 + 2) (hb_cC0 : -1 ≤ cC0 ∧ cC0 ≤ 1) (hb_cC2 : -1 ≤ cC2 ∧ cC2 ≤ 1) :
+    Upd W c (toomK3 W n3 c neg vinf t2a t1 t2 cC0 cC2).1 (toomK3 W n3 c neg vinf t2a t1 t2 cC0 cC2).2
+      ((2 : Int) ^ (W * (2 * n3)) * (sgn (!neg) * (val W vinf : Int))
+        + (2 : Int) ^ (W * (4 * n3)) * (sgn neg * (val W vinf : Int))
+        + (2 : Int) ^ (W * (n3)) * (sgn neg * (val W t2a : Int))
+        + (2 : Int) ^ (W * (n3)) * (sgn (!neg) * (val W t1 : Int))
+        + (2 : Int) ^ (W * (3 * n3)) * (sgn neg * (val W t1 : Int))
+        + (2 : Int) ^ (W * (2 * n3)) * (sgn neg * (val W t2 : Int))
+        + (2 : Int) ^ (W * (3 * n3)) * (sgn (!neg) * (val W t2 : Int))
+        + (2 : Int) ^ (W * (2 * n3)) * cC0
+        + (2 : Int) ^ (W * (4 * n3 + 2)) * cC2) := by
+  have hwl := window_length c (2 * n3) (4 * n3 + 2) (by omega)
+  have hww := window_words hc (2 * n3) (4 * n3 + 2)
+  have hu := addSignedInPlace_upd W (window c (2 * n3) (4 * n3 + 2)) (!neg) vinf hww hw_vinf (by rw [hwl]; omega)
+  have hb := hu.carry_bound hww (list_delta_bound W _ vinf hw_vinf _ (by rw [hwl]; omega))
+  simp only [toomK3]
+  generalize addSignedInPlace W (window c (2 * n3) (4 * n3 + 2)) (!neg) vinf = res at hu hb
+  obtain ⟨w, k⟩ := res
+  simp only at hu hb ⊢
+  obtain ⟨s1, s2, s3⟩ := setWindow_upd W c (2 * n3) (4 * n3 + 2) (by omega) (by omega) hc w k _ hu
+  have hnext := toomK4_spec W n3 hW hn3 (setWindow c (2 * n3) w) neg vinf t2a t1 t2 cC0 (cC2 + k) s2 (by rw [s1]; exact hL) (by rw [s1]; exact hL2) hw_vinf hw_t2a hw_t1 hw_t2 (by rw [s1]; exact hl_vinf) hl_t2a hl_t1 hl_t2 hb_cC0 ⟨by linarith [hb.1, hb_cC2.1], by linarith [hb.2, hb_cC2.2]⟩
+  have := upd_step W c (2 * n3) (4 * n3 + 2) (by omega) (by omega) hc w k _ hu _ _ hnext
+  try simp only [s1] at this
+  refine ⟨this.1, this.2.1, ?_⟩
+  rw [this.2.2]; ring
+
+theorem toomK2_spec (W n3 : Nat) (hW : 4 ≤ W) (hn3 : 1 ≤ n3) (c : List Nat) (neg : Bool) (v0 vinf t2a t1 t2 : List Nat) (cC0 : Int)
+    (hc : IsWords W c) (hL : 5 * n3 + 2 ≤ c.length) (hL2 : c.length ≤ 6 * n3) (hw_v0 : IsWords W v0) (hw_vinf : IsWords W vinf) (hw_t2a : IsWords W t2a) (hw_t1 : IsWords W t1) (hw_t2 : IsWords W t2) (hl_v0 : v0.length = 2 * n3) (hl_vinf : vinf.length + 4 * n3 = c.length) (hl_t2a : t2a.length = 2 * n3 + 2) (hl_t1 : t1.length = 2 * n3 + 2) (hl_t2 : t2.length = 2 * n3 + 2) (hb_cC0 : -1 ≤ cC0 ∧ cC0 ≤ 1) :
+    Upd W c (toomK2 W n3 c neg v0 vinf t2a t1 t2 cC0).1 (toomK2 W n3 c neg v0 vinf t2a t1 t2 cC0).2
+      ((2 : Int) ^ (W * (2 * n3)) * (sgn (!neg) * (val W v0 : Int))
+        + (2 : Int) ^ (W * (2 * n3)) * (sgn (!neg) * (val W vinf : Int))
+        + (2 : Int) ^ (W * (4 * n3)) * (sgn neg * (val W vinf : Int))
+        + (2 : Int) ^ (W * (n3)) * (sgn neg * (val W t2a : Int))
+        + (2 : Int) ^ (W * (n3)) * (sgn (!neg) * (val W t1 : Int))
+        + (2 : Int) ^ (W * (3 * n3)) * (sgn neg * (val W t1 : Int))
+        + (2 : Int) ^ (W * (2 * n3)) * (sgn neg * (val W t2 : Int))
+        + (2 : Int) ^ (W * (3 * n3)) * (sgn (!neg) * (val W t2 : Int))
+        + (2 : Int) ^ (W * (2 * n3)) * cC0) := by
+  have hwl := window_length c (2 * n3) (4 * n3 + 2) (by omega)
+  have hww := window_words hc (2 * n3) (4 * n3 + 2)
+  have hu := addSignedInPlace_upd W (window c (2 * n3) (4 * n3 + 2)) (!neg) v0 hww hw_v0 (by rw [hwl]; omega)
+  have hb := hu.carry_bound hww (list_delta_bound W _ v0 hw_v0 _ (by rw [hwl]; omega))
+  simp only [toomK2]
+  generalize addSignedInPlace W (window c (2 * n3) (4 * n3 + 2)) (!neg) v0 = res at hu hb
+  obtain ⟨w, k⟩ := res
+  simp only at hu hb ⊢
+  obtain ⟨s1, s2, s3⟩ := setWindow_upd W c (2 * n3) (4 * n3 + 2) (by omega) (by omega) hc w k _ hu
+  have hnext := toomK3_spec W n3 hW hn3 (setWindow c (2 * n3) w) neg vinf t2a t1 t2 cC0 k s2 (by rw [s1]; exact hL) (by rw [s1]; exact hL2) hw_vinf hw_t2a hw_t1 hw_t2 (by rw [s1]; exact hl_vinf) hl_t2a hl_t1 hl_t2 hb_cC0 ⟨hb.1, hb.2⟩
+  have := upd_step W c (2 * n3) (4 * n3 + 2) (by omega) (by omega) hc w k _ hu _ _ hnext
+  try simp only [s1] at this
+  refine ⟨this.1, this.2.1, ?_⟩
+  rw [this.2.2]; ring
+
+theorem toomK1_spec (W n3 : Nat) (hW : 4 ≤ W) (hn3 : 1 ≤ n3) (c : List Nat) (neg : Bool) (v0 vinf t2a t1 t2 : List Nat)
+    (hc : IsWords W c) (hL : 5 * n3 + 2 ≤ c.length) (hL2 : c.length ≤ 6 * n3) (hw_v0 : IsWords W v0) (hw_vinf : IsWords W vinf) (hw_t2a : IsWords W t2a) (hw_t1 : IsWords W t1) (hw_t2 : IsWords W t2) (hl_v0 : v0.length = 2 * n3) (hl_vinf : vinf.length + 4 * n3 = c.length) (hl_t2a : t2a.length = 2 * n3 + 2) (hl_t1 : t1.length = 2 * n3 + 2) (hl_t2 : t2.length = 2 * n3 + 2) :
+    Upd W c (toomK1 W n3 c neg v0 vinf t2a t1 t2).1 (toomK1 W n3 c neg v0 vinf t2a t1 t2).2
+      ((2 : Int) ^ (W * (0)) * (sgn neg * (val W v0 : Int))
+        + (2 : Int) ^ (W * (2 * n3)) * (sgn (!neg) * (val W v0 : Int))
+        + (2 : Int) ^ (W * (2 * n3)) * (sgn (!neg) * (val W vinf : Int))
+        + (2 : Int) ^ (W * (4 * n3)) * (sgn neg * (val W vinf : Int))
+        + (2 : Int) ^ (W * (n3)) * (sgn neg * (val W t2a : Int))
+        + (2 : Int) ^ (W * (n3)) * (sgn (!neg) * (val W t1 : Int))
+        + (2 : Int) ^ (W * (3 * n3)) * (sgn neg * (val W t1 : Int))
+        + (2 : Int) ^ (W * (2 * n3)) * (sgn neg * (val W t2 : Int))
+        + (2 : Int) ^ (W * (3 * n3)) * (sgn (!neg) * (val W t2 : Int))) := by
+  have hwl := window_length c (0) (2 * n3) (by omega)
+  have hww := window_words hc (0) (2 * n3)
+  have hu := addSignedSameLen_upd W (window c (0) (2 * n3)) neg v0 hww hw_v0 (by rw [hwl]; omega)
+  have hb := hu.carry_bound hww (list_delta_bound W _ v0 hw_v0 _ (by rw [hwl]; omega))
+  simp only [toomK1]
+  generalize addSignedSameLen W (window c (0) (2 * n3)) neg v0 = res at hu hb
+  obtain ⟨w, k⟩ := res
+  simp only at hu hb ⊢
+  obtain ⟨s1, s2, s3⟩ := setWindow_upd W c (0) (2 * n3) (by omega) (by omega) hc w k _ hu
+  have hnext := toomK2_spec W n3 hW hn3 (setWindow c (0) w) neg v0 vinf t2a t1 t2 k s2 (by rw [s1]; exact hL) (by rw [s1]; exact hL2) hw_v0 hw_vinf hw_t2a hw_t1 hw_t2 hl_v0 (by rw [s1]; exact hl_vinf) hl_t2a hl_t1 hl_t2 ⟨hb.1, hb.2⟩
+  have := upd_step W c (0) (2 * n3) (by omega) (by omega) hc w k _ hu _ _ hnext
+  try simp only [s1] at this
+  refine ⟨this.1, this.2.1, ?_⟩
+  rw [this.2.2]; ring
+
+
+
+theorem sgn_not (neg : Bool) : sgn (!neg) = -sgn neg := by cases neg <;> simp [sgn]
+
+theorem val_three_parts (W : Nat) (a : List Nat) (n3 : Nat) (h : 2 * n3 ≤ a.length) :
+    val W a = val W (a.take n3)
+      + 2 ^ (W * n3) * (val W ((a.drop n3).take n3) + 2 ^ (W * n3) * val W (a.drop (2 * n3))) := by
+  have h1 := val_take_add_drop W a n3
+  have h2 := val_take_add_drop W (a.drop n3) n3
+  rw [length_take_of_le (by omega)] at h1
+  rw [length_take_of_le (by rw [List.length_drop]; omega), List.drop_drop] at h2
+  have : n3 + n3 = 2 * n3 := by omega
+  rw [this] at h2
+  rw [h1, h2]
+
+/-- **Toom-3** (`toom_3::add_signed_mul_same_len`), one level: if the recursive callee meets the
+    same-length contract then so does this level, for every `n ≥ MIN_LEN = 16` -/
+theorem toom3SameLen_contract (W : Nat) (hW : 4 ≤ W) (rec : MulKernel)
+    (hrec : SameLenContract W rec) (c : List Nat) (neg : Bool) (a b : List Nat)
+    (hab : a.length = b.length) (hn : 16 ≤ a.length) (hcl : c.length = a.length + b.length)
+    (hc : IsWords W c) (ha : IsWords W a) (hb : IsWords W b) :
+    MulContract W (toom3SameLen W rec) c neg a b := by
+  unfold MulContract
+  simp only [toom3SameLen]
+  rw [toomApply_eq]
+  generalize hn3 : (a.length + 2) / 3 = n3
+  have g1 : 2 * n3 ≤ a.length := by omega
+  obtain ⟨⟨h0l, h0w, h0v⟩, ⟨hil, hiw, hiv⟩, ⟨hal, haw, hav⟩, ⟨h1l, h1w, h1v⟩, ⟨h2l, h2w, h2v⟩⟩ :=
+    toomScratch_spec W hW rec hrec a b hab hn ha hb n3 hn3.symm _ _ _ _ _ _ rfl rfl rfl rfl rfl rfl
+  have hk := toomK1_spec W n3 hW (by omega) c neg _ _ _ _ _ hc (by omega) (by omega)
+    h0w hiw haw h1w h2w h0l (by rw [hil]; omega) hal h1l h2l
+  refine ⟨hk.1, hk.2.1, ?_⟩
+  rw [hk.2.2, h0v, hiv, hav, h1v, h2v, sgn_not, val_three_parts W a n3 g1,
+    val_three_parts W b n3 (by omega)]
+  have e0 : (2 : Int) ^ (W * 0) = 1 := by simp
+  have e2 : (2 : Int) ^ (W * (2 * n3)) = (2 : Int) ^ (W * n3) * (2 : Int) ^ (W * n3) := by
+    rw [← pow_add]; congr 1; ring
+  have e3 : (2 : Int) ^ (W * (3 * n3))
+      = (2 : Int) ^ (W * n3) * (2 : Int) ^ (W * n3) * (2 : Int) ^ (W * n3) := by
+    rw [← pow_add, ← pow_add]; congr 1; ring
+  have e4 : (2 : Int) ^ (W * (4 * n3))
+      = (2 : Int) ^ (W * n3) * (2 : Int) ^ (W * n3) * ((2 : Int) ^ (W * n3) * (2 : Int) ^ (W * n3)) := by
+    rw [← pow_add, ← pow_add]; congr 1; ring
+  rw [e0, e2, e3, e4]
+  push_cast
+  ring
+
 -- ------------------------------------------------------------------ mul::add_signed_mul_same_len
 
 /-- side conditions on the regenerated thresholds (checked on their current values) -/
 theorem threshold_simple_pos : 1 ≤ Dashu.Gen.mul_THRESHOLD_SIMPLE := by decide
 theorem chunk_len_pos : 1 ≤ Dashu.Gen.mul_simple_CHUNK_LEN := by decide
 
-theorem addSignedMulSameLen_contract (W : Nat) (hW : 3 ≤ W) :
+theorem threshold_karatsuba_ge : 15 ≤ Dashu.Gen.mul_THRESHOLD_KARATSUBA := by decide
+
+theorem addSignedMulSameLen_contract (W : Nat) (hW : 4 ≤ W) :
     ∀ fuel, SameLenContract W (addSignedMulSameLen W fuel) := by
   intro fuel
   induction fuel with
@@ -1066,8 +1983,9 @@ theorem addSignedMulSameLen_contract (W : Nat) (hW : 3 ≤ W) :
     · rename_i h1
       split
       · have h2 := threshold_simple_pos
-        exact karatsubaSameLen_contract W hW _ ih c neg a b hab (by omega) hcl hc ha hb
-      · exact addSignedMulFrontier_contract W c neg a b
+        exact karatsubaSameLen_contract W (by omega) _ ih c neg a b hab (by omega) hcl hc ha hb
+      · have h3 := threshold_karatsuba_ge
+        exact toom3SameLen_contract W hW _ ih c neg a b hab (by omega) hcl hc ha hb
 
 -- ------------------------------------------------------------------ helpers::add_signed_mul_split_into_chunks
 
@@ -1221,7 +2139,7 @@ theorem splitLoop_spec (W : Nat) (hW : 3 ≤ W) (chunkLen : Nat) (hL : 1 ≤ chu
 
 -- ------------------------------------------------------------------ mul::add_signed_mul
 
-theorem addSignedMul_contract (W : Nat) (hW : 3 ≤ W) : ∀ fuel, GenContract W (addSignedMul W fuel) := by
+theorem addSignedMul_contract (W : Nat) (hW : 4 ≤ W) : ∀ fuel, GenContract W (addSignedMul W fuel) := by
   intro fuel
   induction fuel with
   | zero =>
@@ -1245,7 +2163,8 @@ theorem addSignedMul_contract (W : Nat) (hW : 3 ≤ W) : ∀ fuel, GenContract W
           else if b.length ≤ Dashu.Gen.mul_THRESHOLD_KARATSUBA then
             splitLoop W b.length (karatsubaSameLen W (addSignedMulSameLen W b.length))
               (addSignedMul W fuel) a.length c neg a b 0
-          else splitLoop W b.length (addSignedMulFrontier W) (addSignedMul W fuel) a.length c neg a b 0).1
+          else splitLoop W b.length (toom3SameLen W (addSignedMulSameLen W b.length)) (addSignedMul W fuel)
+            a.length c neg a b 0).1
           (if b.length ≤ Dashu.Gen.mul_THRESHOLD_SIMPLE then
             if a.length ≤ Dashu.Gen.mul_simple_CHUNK_LEN then addSignedMulChunk W c neg a b
             else splitLoop W Dashu.Gen.mul_simple_CHUNK_LEN (addSignedMulChunk W) (addSignedMul W fuel)
@@ -1253,27 +2172,31 @@ theorem addSignedMul_contract (W : Nat) (hW : 3 ≤ W) : ∀ fuel, GenContract W
           else if b.length ≤ Dashu.Gen.mul_THRESHOLD_KARATSUBA then
             splitLoop W b.length (karatsubaSameLen W (addSignedMulSameLen W b.length))
               (addSignedMul W fuel) a.length c neg a b 0
-          else splitLoop W b.length (addSignedMulFrontier W) (addSignedMul W fuel) a.length c neg a b 0).2
+          else splitLoop W b.length (toom3SameLen W (addSignedMulSameLen W b.length)) (addSignedMul W fuel)
+            a.length c neg a b 0).2
           (sgn neg * ((val W a * val W b : Nat) : Int)) := by
       intro c neg a b hle hcl hc ha hb
       have hts := threshold_simple_pos
+      have htk := threshold_karatsuba_ge
       split
       · split
         · exact addSignedMulChunk_contract W c neg a b hcl hc ha hb
-        · have := splitLoop_spec W hW _ chunk_len_pos (addSignedMulChunk W) (addSignedMul W fuel) b hb
+        · have := splitLoop_spec W (by omega) _ chunk_len_pos (addSignedMulChunk W) (addSignedMul W fuel) b hb
             (fun c' neg' a' h1 h2 h3 h4 => addSignedMulChunk_contract W c' neg' a' b (by omega) h3 h4 hb)
             ih a.length c neg a 0 hcl hc ha (by omega) (by omega)
           simpa using this
       · rename_i hnot
         split
-        · have := splitLoop_spec W hW b.length (by omega)
+        · have := splitLoop_spec W (by omega) b.length (by omega)
             (karatsubaSameLen W (addSignedMulSameLen W b.length)) (addSignedMul W fuel) b hb
-            (fun c' neg' a' h1 h2 h3 h4 => karatsubaSameLen_contract W hW _
+            (fun c' neg' a' h1 h2 h3 h4 => karatsubaSameLen_contract W (by omega) _
               (addSignedMulSameLen_contract W hW b.length) c' neg' a' b h1 (by omega) (by omega) h3 h4 hb)
             ih a.length c neg a 0 hcl hc ha (by omega) (by omega)
           simpa using this
-        · have := splitLoop_spec W hW b.length (by omega) (addSignedMulFrontier W) (addSignedMul W fuel)
-            b hb (fun c' neg' a' _ _ _ _ => addSignedMulFrontier_contract W c' neg' a' b)
+        · have := splitLoop_spec W (by omega) b.length (by omega)
+            (toom3SameLen W (addSignedMulSameLen W b.length)) (addSignedMul W fuel) b hb
+            (fun c' neg' a' h1 h2 h3 h4 => toom3SameLen_contract W hW _
+              (addSignedMulSameLen_contract W hW b.length) c' neg' a' b h1 (by omega) (by omega) h3 h4 hb)
             ih a.length c neg a 0 hcl hc ha (by omega) (by omega)
           simpa using this
     intro c neg a b hcl hc ha hb
@@ -1520,7 +2443,7 @@ theorem sqrSimple_spec (W : Nat) (a : List Nat) (ha : IsWords W a) (hne : a ≠ 
 
 
 /-- `sqr::sqr`: both arms produce `a²` in `2·a.len()` words -/
-theorem sqrBuffer_spec (W : Nat) (hW : 3 ≤ W) (a : List Nat) (ha : IsWords W a) (hne : a ≠ []) :
+theorem sqrBuffer_spec (W : Nat) (hW : 4 ≤ W) (a : List Nat) (ha : IsWords W a) (hne : a ≠ []) :
     val W (sqrBuffer W a) = val W a * val W a ∧ IsWords W (sqrBuffer W a) := by
   unfold sqrBuffer
   split
